@@ -180,7 +180,7 @@ SKELETONS = {
  'stop-leaf': HEAD + "proc leaf() is stop proc main() is leaf()",
  'stop-leaf-arg': HEAD + "proc leaf(val x) is if x = 0 then stop else skip proc main() is { leaf(s0); leaf(0) }",
  'stop-if': HEAD + "proc main() is if s0 = 0 then stop else skip",
- 'stop-in-func': HEAD + "func g1(val x) is { if x = 1 then stop else skip; return x } proc main() is 0(g1(s0) + g1(s1))",
+ 'stop-in-func': HEAD + "func g1(val x) is { if x = 1 then stop else skip; return x } proc main() is var r; { r := g1(s0); r := r + g1(s1); 0(r) }",
  'skip-main': HEAD + "proc main() is skip",
  'stop': HEAD + "proc main() is { put('x', 0); if s0 = 0 then stop else skip; put('y', 0) }",
  'main-returns': HEAD + "proc main() is put('z', 0)",
